@@ -10,6 +10,7 @@ Output (coq/gen/G_CallCache.v):
   gen_get_expired, gen_put_expiry, gen_over_capacity, gen_evict_oldest      guards / expressions of get and put
   gen_cache_ttl_sec                  the ttl= expression handed to the constructor, as a function of token_ttl
   gen_cursor_expired, gen_call_expired   `token_ttl > 0` and `int(time.time()) - created_at > token_ttl` over Z
+  gen_mint_none_guard                _mint_call_token seals `no call state` iff call_state is None (not: falsy)
   gen_resolve_order                  statement order of _unpack_and_recover_state up to the resolved call
   gen_cold_checks                    order of the checks of _resolve_call_from_token
   gen_cache_uses                     every `app._call_state_cache.<op>(...)` site of _app_stream.py, in source order
@@ -247,6 +248,22 @@ def _ttl_guards(tree: ast.Module) -> list[str]:
     return out
 
 
+def _mint(tree: ast.Module) -> list[str]:
+    """_mint_call_token: "no call state" must mean `call_state is None`, not falsiness (the cache holds the live object)."""
+    fn = _find(tree, "_mint_call_token", ST)
+    conds = [n for n in ast.walk(fn) if isinstance(n, ast.IfExp) and any(isinstance(x, ast.Name) and x.id == "call_state" for x in ast.walk(n.test))]
+    conds.sort(key=lambda n: (n.lineno, n.col_offset))
+    want = ["b'' if call_state is None else call_state.serialize_to_bytes()", "'' if call_state is None else type(call_state).__name__"]
+    got = [ast.unparse(n) for n in conds]
+    if got == want:
+        flag = "true"
+    elif len(conds) == 2 and all(ast.dump(n.test) != _d("call_state is None", "eval") for n in conds):
+        flag = "false"
+    else:
+        raise TranslationBroken(ST, f"_mint_call_token: call-state guards changed: {got}")
+    return ["(* the call token carries `no call state` exactly when call_state is None *)", f"Definition gen_mint_none_guard : bool := {flag}."]
+
+
 # ---- _app.py ---------------------------------------------------------------------------------------------------------
 def _ctor(repo: Path) -> list[str]:
     tree = ast.parse((repo / AP).read_text())
@@ -396,5 +413,5 @@ def generate(repo: Path) -> str:
     st = ast.parse((repo / ST).read_text())
     ap = ast.parse((repo / AS).read_text())
     lines = ["From Coq Require Import List NArith ZArith Bool.", "Import ListNotations.", "Open Scope N_scope.", ""]
-    lines += _identity(st) + _get_put(st) + _ttl_guards(st) + _ctor(repo) + _resolution(ap)
+    lines += _identity(st) + _get_put(st) + _ttl_guards(st) + _mint(st) + _ctor(repo) + _resolution(ap)
     return "\n".join(lines) + "\n"
